@@ -117,6 +117,23 @@ func pinnedSets() []pinnedSet {
 			},
 		},
 		{
+			// an object federated on one service and plain on the other: thunder refuses such a set;
+			// the refusal must not depend on which service's name sorts first
+			name: "mixed-federation",
+			set: [][]*schemaDef{
+				{sch(
+					obj("User", fld("id", tI64R), fld("name", tStr), fld("_federation", named("OBJECT", "User"))),
+					&typeDef{Name: "UserKeys0_InputObject", Kind: "INPUT_OBJECT", InputFields: []inputVal{{"id", tI64R}}},
+					obj("Federation", fld(svcPlaceholder+"_User", nonNull(listOf(nonNull(named("OBJECT", "User")))), arg("keys", nonNull(listOf(named("INPUT_OBJECT", "UserKeys0_InputObject")))))),
+					obj("Query", fld("users", listOf(named("OBJECT", "User"))), fld("_federation", nonNull(named("OBJECT", "Federation")))),
+				)},
+				{sch(
+					obj("User", fld("id", tI64R), fld("isCool", named("SCALAR", "bool"))),
+					obj("Query", fld("coolUsers", listOf(named("OBJECT", "User")))),
+				)},
+			},
+		},
+		{
 			// control: two services, a rolling deploy that adds an optional argument, makes an
 			// output nullable and an argument required; everything executable by every version
 			name: "control",
